@@ -31,7 +31,7 @@ impl Prop for C06Prop {
         }
     }
     fn rule(&self) -> &'static str {
-        "valid files (generated or real transmissions) in which TLFs are replaced by ones declaring 2^4 .. 2^32-1 and >= 2^32 (9-12 nibbles, incl. values wrapping to the original length mod 2^32), at every TLF position incl. list counts, plus the C04 fault mix; both parsers run under the accounting allocator. Directed: every TLF site of a base set x every inflation value. Non-trivial = at least one fault applied; distinct = scenario fingerprint"
+        "valid files (generated or real transmissions) in which TLFs are replaced by ones declaring 2^4 .. 2^32-1 and >= 2^32 (9-12 nibbles, incl. values wrapping to the original length mod 2^32), at every TLF position incl. list counts, plus the C04 fault mix (structural mutations incl. hollow lists, seal faults, byte faults incl. runs of 40 .. 70 000 equal bytes / repeated small valid messages, lists of 2^16 entries, files of 2^12 messages); both parsers run under the accounting allocator, size_hint is asked before every poll; the directed corpus and a share of the seeded runs are repeated in the unoptimised build on an 8 MiB stack. Directed: every TLF site of a base set x every inflation value. Non-trivial = at least one fault applied; distinct = scenario fingerprint"
     }
     fn assumptions(&self) -> Vec<&'static str> {
         vec![
